@@ -701,7 +701,8 @@ func (r *renderer) node(n *DNode, depth int, first bool) {
 		// no comment right after a schema/enum body: schema-core counts trailing comments into the body extent
 		if l.Comments > 0 && rng.Chance(1, 4) && !r.hasOpen && !r.afterBody {
 			if rng.Chance(1, 2) {
-				b.WriteString(ind + "# a comment" + l.NL)
+				// every shape of a line comment: empty, blank only, dashes, text, a second '#' inside
+				b.WriteString(ind + Pick(rng, []string{"# a comment", "#", "# ", "#---", "#x", "# a # b", "#\t"}) + l.NL)
 			} else {
 				b.WriteString(ind + "###" + l.NL + ind + "block # comment" + l.NL + ind + "###" + l.NL)
 			}
